@@ -42,3 +42,15 @@ package tokens
 //@   calls macaroon.New base: rootKey == op.ServerPrivateKey && str(id) == op.UserID && loc == op.ServerName
 //@   calls AddFirstPartyCaveat caveat-shape: str(caveat) == "gen = 1" || str(caveat) == "user_id = " + op.UserID || str(caveat) == "time < " + itoa(nowUnix + (op.Duration == 0 ? 120 : op.Duration))
 //@   ensures options-checked: err == nil ==> (op.ServerPrivateKey != nil && op.ServerName != "" && op.UserID != "")
+
+// ---------------------------------------------------------------- C18: zero-annotation sweep
+// Functions whose no-panic obligations discharge without any contract beyond a non-nil pointer receiver
+// (generated from `gvc sweep`; `inline`: callers keep seeing the body).
+
+//@ func GetUserFromToken
+//@   property C18:safety
+//@   inline
+
+//@ func generateBaseMacaroon
+//@   property C18:safety
+//@   inline
